@@ -19,10 +19,11 @@ META = {
     "indices below the used count; the model is tied to the code by cycle-exact comparison of done bits, returned "
     "identifiers, the order/used result and alloc.ready over entries 1..9,16,17, random/directed histories, a "
     "malformed stream (frees of free identifiers, indices >= used, out-of-range arguments, counter underflow), "
-    "thorough: all histories up to length 3 (4 for entries=1) on entries 1..4",
+    "thorough: all histories up to length 3 on entries 1..4 (free+free_idx pairs up to length 2 for entries 3,4)",
     "level_note": "trusted: Lean kernel, axioms propext/Quot.sound/Classical.choice; Amaranth semantics (incl. Array "
     "out-of-range reads) and pysim; the harness glue. free and free_idx conflict (free calls free_idx) with no "
-    "declared priority: simultaneous attempts are excluded from the property and never generated.",
+    "declared priority: the winner of simultaneous attempts is read off the elaborated design (cfg ff=), the "
+    "monitor demands that exactly one executes.",
 }
 
 _sims: dict[int, CompSim] = {}
@@ -34,6 +35,19 @@ def _sim(n: int) -> CompSim:
 
         _sims[n] = CompSim(lambda: PreservedOrderAllocator(n))
     return _sims[n]
+
+
+_ff: dict[int, int] = {}
+
+
+def _free_first(n: int) -> int:
+    """Which of the conflicting adapters (free / free_idx, both call the exclusive free_idx) has priority in
+    the elaborated design: read off the real circuit (one allocation, then both attempted).  1 = free.
+    If both execute (no conflict at all) the answer is arbitrary; the monitor reports that."""
+    if n not in _ff:
+        tr = _sim(n).run([{"alloc": 0}, {"free": 0, "free_idx": 0}])
+        _ff[n] = 0 if (tr[1][("free",)] is None and tr[1][("free_idx",)] is not None) else 1
+    return _ff[n]
 
 
 def _kv(line: str) -> dict:
@@ -82,7 +96,8 @@ def monitor(case: Case, out: list[str]):
     """The property sentence on the implementation's observations (reference: the list of allocated
     identifiers, oldest first, rebuilt from what alloc returned and what was freed).  Returns None as soon
     as the history leaves the environment hypotheses (free of an identifier that is not allocated, index not
-    below the used count, free and free_idx together)."""
+    below the used count).  free and free_idx attempted together: both arguments must be legal, exactly one
+    of them may execute."""
     n = case.desc["n"]
     A: list[int] = []
     pristine = True  # nothing executed since reset / clear: order must read as the initial state
@@ -90,8 +105,9 @@ def monitor(case: Case, out: list[str]):
         i = _kv(op)
         f = _kv("x " + o)
         fid, fx = _opt(i["f"]), _opt(i["x"])
-        if fid is not None and fx is not None:
-            return None
+        if fid is not None and fx is not None and f["f"] == "1" and f["x"] == "1":
+            return (f"cycle {k}: free({fid}) and free_idx({fx}) both executed in one cycle (they share one exclusive "
+                    f"removal port; at most one identifier can be removed per cycle)")
         if fid is not None and fid not in A:
             return None
         if fx is not None and fx >= len(A):
@@ -116,9 +132,17 @@ def monitor(case: Case, out: list[str]):
             return f"cycle {k}: alloc attempted={i['a']} executed={a is not None} with {len(A)} of {n} allocated"
         if a is not None and (a in A or a >= n):
             return f"cycle {k}: alloc returned {a}, which is allocated (allocated: {A})"
-        if (f["f"] == "1") != (fid is not None) or (f["x"] == "1") != (fx is not None) or (f["c"] == "1") != (i["c"] == "1"):
+        if fid is not None and fx is not None:
+            ok = (f["f"] == "1") != (f["x"] == "1")  # exactly one of the two conflicting calls is granted
+        else:
+            ok = (f["f"] == "1") == (fid is not None) and (f["x"] == "1") == (fx is not None)
+        if not ok or (f["c"] == "1") != (i["c"] == "1"):
             return f"cycle {k}: free/free_idx/clear attempted f={i['f']} x={i['x']} c={i['c']}, executed f={f['f']} x={f['x']} c={f['c']}"
-        # bookkeeping
+        if f["f"] != "1":
+            fid = None
+        if f["x"] != "1":
+            fx = None
+        # bookkeeping (with what executed)
         if fid is not None:
             A = [x for x in A if x != fid]
         if fx is not None:
@@ -150,7 +174,7 @@ def _mk(n, ops, tag) -> Case:
     """ops: (alloc, free ident|None, free_idx|None, order, clear)"""
     fmt = lambda v: "-" if v is None else str(v)  # noqa: E731
     lines = [f"cyc a={int(a)} f={fmt(f)} x={fmt(x)} o={int(o)} c={int(c)}" for a, f, x, o, c in ops]
-    return Case(f"cfg n={n}", lines, {"component": "PreservedOrderAllocator", "n": n}, tag)
+    return Case(f"cfg n={n} ff={_free_first(n)}", lines, {"component": "PreservedOrderAllocator", "n": n}, tag)
 
 
 class _Ref:
@@ -161,6 +185,11 @@ class _Ref:
 
     def step(self, a, f, x, c):
         arun = a and self.used != self.n
+        if f is not None and x is not None:  # conflicting attempts: the design's priority decides
+            if _free_first(self.n):
+                x = None
+            else:
+                f = None
         idx = self.order.index(f) if f is not None else x
         used = self.used + int(arun)
         if idx is not None:
@@ -178,9 +207,10 @@ def _valid_stream(rng, n, length, pa, pf, pc, po=0.9):
         a = rng.random() < pa
         f = x = None
         if ref.used and rng.random() < pf:
-            if rng.random() < 0.5:
+            r = rng.random()
+            if r < 0.6:
                 f = ref.order[rng.randrange(ref.used)]
-            else:
+            if r >= 0.4:  # 0.4..0.6: both in the same cycle (conflict, one is granted)
                 x = rng.randrange(ref.used) if rng.random() < 0.7 else rng.choice([0, ref.used - 1])
         c = rng.random() < pc
         ops.append((a, f, x, rng.random() < po, c))
@@ -215,6 +245,10 @@ def _directed(n):
     for k in range(n):
         if ref.used:
             push(True, f=ref.order[min(k, ref.used - 1)])
+    for k in range(min(n, 3)):  # free and free_idx together (different and same designated identifier)
+        if ref.used:
+            push(k % 2 == 0, f=ref.order[ref.used - 1], x=min(k, ref.used - 1))
+            push(True)
     push(True, x=0 if ref.used else None, c=True)
     push(False)
     push(True)
@@ -236,16 +270,16 @@ def gen_cases(ctx: Check):
         valid.append(_mk(n, _directed(n), "directed"))
         for pa, pf, pc in [(0.9, 0.3, 0.01), (0.4, 0.8, 0.01), (0.7, 0.7, 0.03), (1.0, 1.0, 0.0), (0.6, 0.5, 0.0)]:
             valid.append(_mk(n, _valid_stream(rng, n, length, pa, pf, pc), "random"))
-        # malformed: any argument that fits the signals (never free and free_idx together); no property claim
+        # malformed: any argument that fits the signals (free and free_idx also together); no property claim
         w = (n - 1).bit_length()
         for _ in range(2):
             ops = []
             for _ in range(length // 2):
                 f = x = None
                 r = rng.random()
-                if r < 0.3:
+                if r < 0.35:
                     f = rng.randrange(1 << w)
-                elif r < 0.6:
+                if 0.25 <= r < 0.6:
                     x = rng.randrange(1 << w)
                 ops.append((rng.random() < 0.6, f, x, True, rng.random() < 0.03))
             malformed.append(_mk(n, ops, "malformed"))
@@ -254,14 +288,17 @@ def gen_cases(ctx: Check):
 
 def exhaustive_cases(ctx: Check):
     """thorough: every history of bounded length over the full input alphabet (arguments that fit the signals;
-    never free and free_idx together), order observed every cycle; the monitor judges the ones inside the
+    free and free_idx also together), order observed every cycle; the monitor judges the ones inside the
     environment hypotheses"""
     cases = []
-    for n, maxlen in [(1, 4), (2, 3), (3, 3), (4, 3)]:
+    for n, maxlen in [(1, 3), (2, 3), (3, 3), (4, 3)]:
         w = (n - 1).bit_length()
-        calls = [(None, None)] + [(v, None) for v in range(1 << w)] + [(None, v) for v in range(1 << w)]
-        alph = [(a, f, x, True, c) for a in (False, True) for f, x in calls for c in (False, True)]
+        single = [(None, None)] + [(v, None) for v in range(1 << w)] + [(None, v) for v in range(1 << w)]
+        pairs = [(v, u) for v in range(1 << w) for u in range(1 << w)]  # free and free_idx together
         for L in range(1, maxlen + 1):
+            # conflicting pairs make the alphabet large: full alphabet only up to length 2 for entries >= 3
+            calls = single + pairs if (n <= 2 or L <= 2) else single
+            alph = [(a, f, x, True, c) for a in (False, True) for f, x in calls for c in (False, True)]
             for seq in itertools.product(alph, repeat=L):
                 cases.append(_mk(n, list(seq) + [(False, None, None, True, False)], "exhaustive"))
     return cases
@@ -298,9 +335,9 @@ def run(ctx: Check):
     if ctx.thorough:
         cases = exhaustive_cases(ctx)
         lockstep(ctx, "po-allocator-exhaustive", "C26", cases, impl, monitor, more_cases, lambda c, o: True, procs=1)
-        ctx.note("thorough: all histories over the full input alphabet up to length 4 (entries 1) / 3 (entries 2,3,4)")
-    ctx.note("free+free_idx in the same cycle is never generated: both transactions call the exclusive method "
-             "free_idx, no priority is declared, the winner (currently free) is an artefact of scheduling order")
+        ctx.note("thorough: all histories over the full input alphabet up to length 3 on entries 1..4 (conflicting free+free_idx pairs: full for entries 1,2, length<=2 for 3,4)")
+    ctx.note("free+free_idx in the same cycle: both transactions call the exclusive method free_idx, no priority is "
+             "declared; the winner is read off the elaborated design (cfg ff=) and the monitor demands exactly one")
 
 
 def replay(ctx: Check, body: dict):
